@@ -316,7 +316,26 @@ type redefObs struct {
 	What string `json:"what,omitempty"`
 }
 
+// replayRedef replays a history twice: with plain functions, and with f and g spelled as generic functions
+// instantiated at one type (func f[T any](d T) int, used as f(0)): the history and its meaning are the same,
+// the interpreter keeps instances of generic functions in a table of its own.
 func replayRedef(h redefBeh) (o redefObs) {
+	if o = replayRedefAs(h, false); o.Step != 0 {
+		return o
+	}
+	if o = replayRedefAs(h, true); o.Step != 0 {
+		o.What = "generic spelling: " + o.What
+	}
+	return o
+}
+
+func replayRedefAs(h redefBeh, generic bool) (o redefObs) {
+	tp, arg := "", ""
+	if generic {
+		tp, arg = "[T any](d T)", "0"
+	} else {
+		tp = "()"
+	}
 	defer func() {
 		if r := recover(); r != nil {
 			o = redefObs{Step: -1, What: fmt.Sprintf("Go panic escaped: %v", r)}
@@ -329,11 +348,11 @@ func replayRedef(h redefBeh) (o redefObs) {
 		src := ""
 		switch st.Op {
 		case "DefF":
-			src = fmt.Sprintf("func f() int { return %d }", st.V)
+			src = fmt.Sprintf("func f%s int { return %d }", tp, st.V)
 		case "DefG":
-			src = fmt.Sprintf("func g() int { return %d }", st.V)
+			src = fmt.Sprintf("func g%s int { return %d }", tp, st.V)
 		case "DefC":
-			src = "func c() int { return f() + 10 }"
+			src = "func c() int { return f(" + arg + ") + 10 }"
 		case "SetX":
 			if xDeclared {
 				src = fmt.Sprintf("x = %d", st.V)
@@ -342,9 +361,9 @@ func replayRedef(h redefBeh) (o redefObs) {
 				xDeclared = true
 			}
 		case "UseF":
-			src = "f()"
+			src = "f(" + arg + ")"
 		case "UseG":
-			src = "g()"
+			src = "g(" + arg + ")"
 		case "UseC":
 			src = "c()"
 		case "UseX":
